@@ -46,7 +46,10 @@ class Sched:
         # anything else the module asks of ``threading``
         return getattr(_real_threading, name)
 
-    def install(self):
+    def install(self, ui=True):
+        """``ui=False``: no UI handler yet (an application whose toolkit is
+        initialised later): ``install_ui`` sets it at a point the trace chooses;
+        until then every simulated change happens on the main thread."""
         import traits.trait_notifiers as tn
         self._saved = (tn.threading, tn.Thread, tn.ui_handler)
         tn.threading = self
@@ -62,7 +65,16 @@ class Sched:
                 sched.enqueue("new", self.target, self.args, self.kwargs)
 
         tn.Thread = SimThread
+        self.ui_installed = False
+        if ui:
+            self.install_ui()
+        else:
+            tn.set_ui_handler(None)
+
+    def install_ui(self):
+        import traits.trait_notifiers as tn
         tn.set_ui_handler(self.ui_handler)
+        self.ui_installed = True
 
     def uninstall(self):
         if self._saved is not None:
@@ -72,6 +84,8 @@ class Sched:
 
     # -- queues ----------------------------------------------------------------
     def switch(self, name):
+        if not getattr(self, "ui_installed", True):
+            return          # no toolkit yet: everything happens on the main thread
         t = self.idents.get(name)
         if t is None:
             t = self.idents[name] = _SimThreadIdent(name)
